@@ -5,6 +5,8 @@
 #   mode hashN  : as all, and additionally the token digest mod N must be non-zero (non-monotone)
 #   mode eol    : exit status 1 and the word bug in any case; the line ends in LF iff every given token occurs, else in CR LF
 #                 (stderr: a progress line ended by CR resp. LF) -- candidates differ from the golden run in line terminators only
+#   mode bytes  : exit status 1 in any case; prints the byte ff iff every given token occurs, else the four characters \\xff
+#                 (candidates differ from the golden run in an undecodable byte only)
 #   mode sync   : as all, and additionally the literal tokens (numerals, decimals, #b/#x, strings) must be at least two and all equal
 #                 (occurrences that have to be kept in sync: only a step that changes all of them at once is accepted)
 # Logs "<digest> <verdict>" to $VERIF_CMDLOG.  Optional delay: $VERIF_CMD_DELAY (ms, scaled by the digest).
@@ -29,6 +31,10 @@ if [ -n "$VERIF_CMD_DELAY" ]; then
   sleep "$(printf '0.%03d' "$ms")"
 fi
 [ -n "$VERIF_CMDLOG" ] && printf '%s %s\n' "$digest" "$ok" >> "$VERIF_CMDLOG"
+if [ "$mode" = bytes ]; then
+  if [ "$ok" = 1 ]; then printf '\377 bug\n'; else printf '\\xff bug\n'; fi
+  exit 1
+fi
 if [ "$mode" = eol ]; then
   if [ "$ok" = 1 ]; then printf 'bug\n'; printf 'working\n' >&2; else printf 'bug\r\n'; printf 'working\r' >&2; fi
   exit 1
